@@ -255,6 +255,21 @@ def run(tier, seed):
             seen.add(v.signature)
             v.case["kind"] = "history"
             viols.append(v)
+    # a completed session in which the caller skipped a write the writer refused (shares the C18 harness: symbolic
+    # position / attribute / kind of the refused write, symbolic examples_per_shard): counts must not include it
+    from . import c18
+    rst, _, rerr = par.run_cells(c18._cell, [dict(ft="fb", n=n, md=False) for n in ((2, 3) if tier == "quick" else (1, 2, 3, 4))])
+    for c in rst.cex:
+        kind = (c.get("info") or {}).get("kind", "")
+        if kind != "counts-include-rejected-write":
+            continue  # the other obligations of that harness belong to C18
+        sig = "C04:counts-include-rejected-write"
+        if sig not in seen:
+            seen.add(sig)
+            viols.append(Violation(sig, c["msg"], dict(kind="rejected-write", model=c["model"],
+                                                       cfg=dict(ft="fb", n=int(c["msg"].split(" of ")[1].split()[0]), md=False))))
+    gerr = gerr + rerr
+    gst.merge(rst)
     st_all = st.as_dict()
     st_all["grounding"] = gst.as_dict()
     return Result(
@@ -285,6 +300,9 @@ def replay(case):
     common.import_sedpack()
     if case.get("kind") == "history":
         return c08.replay(case)
+    if case.get("kind") == "rejected-write":
+        from . import c18
+        return c18.replay(dict(model=case["model"], cfg=case["cfg"]))
     # a step counter-example: re-run a family of concrete histories that produce the shapes, through C08's scenario
     from ..symx import ConcreteEngine as CE
     K = {k: i for i, k in enumerate(c08.KINDS)}
